@@ -23,6 +23,22 @@ CHECKS = {
    text="Σ_small (thorough: plus thinned Σ_B(2)/Σ_A(1)) x the layout space Λ: 27 uniform layouts, 3 tight layouts, every single-gap deviation with each of 8 separators (blank, LF, CRLF, tab, blank lines, block/line comments with code-like text and multi-byte characters); thorough adds all gap pairs on programs of <= 25 tokens. For each detector the tokens flagged on the canonical layout must be exactly the tokens flagged in every layout, lines being recomputed by the harness; all 30 detectors run on the uniform layouts so that comment text can never create a finding.",
    note="Trusted: the harness's line computation; every layout is re-parsed to validate token preservation. Comments are not placed inside pragma directives (lexer mode).",
    technique="exhaustive enumeration of layouts with bounded deviations (0,1,2) from the default layout, differential oracle against the canonical layout"),
+ "C06": dict(engine="refdet+csem", ref="7/C06, 8.12-8.16",
+   text="Declaration space D: every member description (variable type x visibility x constant/immutable x underscore; function kind x visibility x mutability x body x underscore) alone in each of contract / abstract contract / library / interface, with <= 2 neighbours of 8 member kinds at every relative position, and as first / second / third item of multi-item files; for constructor_order ALL sequences over 7 member kinds up to length 5 in one contract and all pairs / triples of shorter sequences across contracts (both orders, free function in between), counts up to 513 functions; plus Σ_D. Oracle: reference detectors 8.12–8.16 with iff semantics, the verdict recomputed from the declaration (and, for constructor_order, the preceding members of its own contract) only, so any cross-contract influence is a violation.",
+   note="Trusted: reference definitions of section 8 (decided alphabet; gray outside), solang-parser. Files with duplicate state-variable names are outside the quantifier and skipped.",
+   technique="bounded-exhaustive enumeration of declaration sequences against iff reference detectors"),
+ "C07": dict(engine="refdet+csem", ref="7/C07, 8.17-8.20",
+   text="Σ plus three dedicated spaces: the selfdestruct matrix (function kind x visibility x modifier name x 11 guard forms x 6 payout forms x callee, guard after the call or in another function, the call in every statement hole and in every expression hole of every statement), all {*,/,+} operator trees with <= 3 (4) operators with and without redundant parentheses under =, /= and *=, and pragma values x unrelated pragmas x positions; x the 4 vulnerability detectors against the three-valued reference detectors 8.17–8.20.",
+   note="Trusted: reference definitions of section 8 (gray: functions without visibility keyword, OnlyOwner-style names, mentions of msg.sender outside calls), solang-parser.",
+   technique="bounded-exhaustive input-space enumeration of the implementation against three-valued reference detectors"),
+ "C08": dict(engine="refdet+csem", ref="7/C08, 8.21-8.24",
+   text="Write-site space W: a state variable declared in 7 (15) ways (plain, constructor-assigned, initialised, constant, immutable, several types and right-hand sides) in the same contract or in another contract before/after, crossed with one write of every form (11 assignment operators, prefix/postfix ++/--, gray forms through index, member, tuple, parenthesis, delete) placed in EVERY expression hole (declaration contexts such as base-constructor and modifier arguments and initialisers, every statement operand, every operand of every expression alternative) and every statement hole of every function kind; thorough adds a second write site. memory_to_calldata: function kind x visibility x data location x named/unnamed x type x every write form in every hole of the body. Oracle: reference detectors 8.21–8.24 (never-suggest halves exact, always-suggest halves on elementary/value types).",
+   note="Trusted: reference definitions of section 8; the quantifier's uniqueness of state-variable names is enforced by filtering. Bounded to one (two) write sites per file.",
+   technique="bounded-exhaustive enumeration of (declaration form x write form x syntactic position) against reference detectors"),
+ "C09": dict(engine="refdet+csem", ref="7/C09, 8.25-8.28",
+   text="Every version triple {0,1} x {0..20} x {0..40} (quick: 10 patch values, product thinned away from the thresholds, full near them) x 11 operator spellings x 6 placements (unrelated pragmas before/after, solidity pragma last) x 3 bodies (SafeMath attached at contract level / file level / not attached) holding add/sub/mul/div call sites and require strings of 0,1,31,32,33,64 bytes and 16 two-byte characters; plus call sites and require strings in every syntactic hole for 0.7.6/0.8.0/0.8.3/0.8.4. Oracle: thresholds 0.8.0 / 0.8.4 on the triple the harness printed; never both SafeMath detectors; monotonicity follows from agreement with the threshold function on the whole grid.",
+   note="Trusted: reference definitions 8.25–8.28. Files with several or partial solidity pragmas are outside the quantifier (gray).",
+   technique="exhaustive enumeration of the version grid x spellings x placements against a threshold oracle"),
 }
 ALL = ["C%02d" % i for i in range(1, 20)]
 NOT_YET = "check not built yet in this revision of /verif (see DESIGN.md section 7 for the planned decision procedure)"
